@@ -4,7 +4,7 @@ use crate::explore::{trunc, Violation};
 use crate::inst::fresh_dir;
 use crate::util::*;
 use crate::wire::*;
-use brc20_prog::verif::Encode;
+use brc20_prog::verif::{Decode, Encode};
 use serde_json::{json, Value};
 use std::collections::BTreeMap;
 use std::path::Path;
@@ -147,6 +147,85 @@ pub fn run(tier: &str, seed: u64) -> i32 {
             remove_dir(&dir);
         }
     }
+    // near misses of each recorded value (a prefix / extension / case / whitespace variant must not pass), and
+    // a populated directory that lost its configuration database
+    let read_rec = |dir: &Path, key: &str| -> Option<String> {
+        let mut opts = rocksdb::Options::default();
+        opts.create_if_missing(false);
+        let db = rocksdb::DB::open(&opts, dir.join("config")).ok()?;
+        let v = db.get(key.to_string().encode_vec()).ok()??;
+        String::decode_vec(&v).ok()
+    };
+    for k in keys {
+        for variant in ["append-0", "append-.1", "drop-last-char", "upper-case", "leading-space", "trailing-newline"] {
+            let dir = fresh_dir();
+            match start_server(&ServerCfg { dir: dir.clone(), auth: false, network: "regtest".into(), traces: true }) {
+                Ok(mut s) => {
+                    populate(&s.addr);
+                    s.stop();
+                }
+                Err(e) => {
+                    errors.push(e);
+                    continue;
+                }
+            }
+            let Some(cur) = read_rec(&dir, k) else {
+                errors.push(format!("recorded value of {} not readable", k));
+                remove_dir(&dir);
+                continue;
+            };
+            let new = match variant {
+                "append-0" => format!("{}0", cur),
+                "append-.1" => format!("{}.1", cur),
+                "drop-last-char" => cur[..cur.len().saturating_sub(1)].to_string(),
+                "upper-case" => cur.to_uppercase(),
+                "leading-space" => format!(" {}", cur),
+                _ => format!("{}\n", cur),
+            };
+            if new == cur {
+                remove_dir(&dir);
+                continue;
+            }
+            tamper(&dir, k, Some(&new));
+            evals += 1;
+            mismatches += 1;
+            if let Ok(mut s) = start_server(&ServerCfg { dir: dir.clone(), auth: false, network: "regtest".into(), traces: true }) {
+                s.stop();
+                vs.push(mk("tampered-record-accepted", format!("{} {}", k, variant), format!("start() served a database whose {} record is {:?} instead of {:?}", k, new, cur)));
+            }
+            remove_dir(&dir);
+        }
+    }
+    {
+        let dir = fresh_dir();
+        if let Ok(mut s) = start_server(&ServerCfg { dir: dir.clone(), auth: false, network: "regtest".into(), traces: true }) {
+            populate(&s.addr);
+            s.stop();
+            // three starts in a row under the identical configuration serve the same state
+            let mut seen: Vec<String> = Vec::new();
+            for round in 0..3 {
+                match start_server(&ServerCfg { dir: dir.clone(), auth: false, network: "regtest".into(), traces: true }) {
+                    Ok(mut s) => {
+                        seen.push(observe(&s.addr));
+                        s.stop();
+                    }
+                    Err(e) => vs.push(mk("identical-configuration-refused", format!("regtest/traces=true, restart number {}", round + 1), e)),
+                }
+                evals += 1;
+            }
+            if seen.windows(2).any(|w| w[0] != w[1]) {
+                vs.push(mk("state-differs-after-reopen", "regtest/traces=true restarted three times".into(), first_diff(&seen[0], seen.last().unwrap())));
+            }
+            let _ = std::fs::remove_dir_all(dir.join("config"));
+            evals += 1;
+            mismatches += 1;
+            if let Ok(mut s) = start_server(&ServerCfg { dir: dir.clone(), auth: false, network: "regtest".into(), traces: true }) {
+                s.stop();
+                vs.push(mk("foreign-directory-accepted", "populated directory whose configuration database was deleted".into(), "start() served a populated directory without recorded configuration".into()));
+            }
+        }
+        remove_dir(&dir);
+    }
     for what in ["foreign file", "empty config database", "only table directories"] {
         let dir = fresh_dir();
         match what {
@@ -171,7 +250,7 @@ pub fn run(tier: &str, seed: u64) -> i32 {
     let mut ev = Evidence::new("C20", tier, seed, "exploration");
     ev.coverage = json!({
         "evaluations": evals, "distinct_nontrivial": mismatches,
-        "rule": "all 196 ordered pairs (creating configuration, reopening configuration) over 7 network names x trace on/off through validate_config_database; through the public start() in child processes: every configuration restarted as itself on a populated directory (must serve the same state) and mismatching pairs (all 182); each of the 4 recorded keys missing / altered / empty; 3 kinds of foreign non-empty directories. distinct_nontrivial = cases that had to be refused",
+        "rule": "all 196 ordered pairs (creating configuration, reopening configuration) over 7 network names x trace on/off through validate_config_database; through the public start() in child processes: every configuration restarted as itself on a populated directory (must serve the same state) and mismatching pairs (all 182); each of the 4 recorded keys missing / altered / empty / six near misses of the recorded value (extension, truncation, case, white space); three restarts in a row; 4 kinds of non-empty directories without recorded configuration. distinct_nontrivial = cases that had to be refused",
         "samples": samples, "servers_started": started, "exhaustive": true, "machinery_errors": errors,
     });
     ev.assumptions = vec!["network names are compared as recorded (mainnet and bitcoin are different configurations to the check, as they are to the code)".into()];
